@@ -248,15 +248,33 @@ class LC:
                  any(isinstance(s, ast.Return) for s in astx.walk_stmts(d.body))]
         return names
 
-    def deferral_nodes(self, loop):
-        """`continue` nodes directly under `if set_later(<loop var>):` inside the loop."""
+    def deferral_polarity(self, t, loop, at_stmt=None):
+        """True/False: the edge label of test t on which set_later(<loop var>) holds; None if t is no such test."""
+        if isinstance(t, ast.UnaryOp) and isinstance(t.op, ast.Not):
+            p = self.deferral_polarity(t.operand, loop, at_stmt)
+            return None if p is None else not p
+        return True if self.is_set_later_test(t, loop, at_stmt) else None
+
+    def deferral_tests(self, loop):
+        """[(test node, label on which the name is deferred, predicate name)] inside the loop."""
         out = []
         for n in self.g.body_nodes(loop.stmt):
-            if n.kind == 'stmt' and isinstance(n.ast, ast.Continue):
-                par = getattr(n.ast, '_parent', None)
-                if isinstance(par, ast.If) and n.ast in par.body and self.is_set_later_test(par.test, loop, n.ast):
-                    out.append(n)
+            if n.kind == 'test' and isinstance(n.ast, ast.If):
+                p = self.deferral_polarity(n.ast.test, loop, n.ast)
+                if p is not None:
+                    t = n.ast.test
+                    while isinstance(t, ast.UnaryOp):
+                        t = t.operand
+                    out.append((n, 'true' if p else 'false', t.func.id))
         return out
+
+    def deferral_edge_ok(self, loop):
+        """edge_ok filter that cuts the edges on which a name is deferred (they are accepted ends)."""
+        cut = {(n, lab) for n, lab, _ in self.deferral_tests(loop)}
+
+        def ok(n, m, lab):
+            return (n, lab) not in cut
+        return ok
 
     def is_set_later_test(self, t, loop, at_stmt=None):
         return isinstance(t, ast.Call) and isinstance(t.func, ast.Name) and t.func.id in self.local_defs \
@@ -319,7 +337,7 @@ def _check_loop_nodrop(lc, out, loop, stmt, label):
         if lc.set_val_calls(n):
             sinks.add(n)
     sinks |= {n for n in g.calling('issue_warning') if n in body}
-    sinks |= {n for n in lc.deferral_nodes(loop) if n in body}
+    defer_ok = lc.deferral_edge_ok(loop)
     delegated = []
     for inner in lc.inner_loops(stmt):
         ih = g.nodes_of(inner)[0]
@@ -335,7 +353,7 @@ def _check_loop_nodrop(lc, out, loop, stmt, label):
                        'derived from the loop key')
             sinks.add(ih)
     entry = [m for m, lab in g.succ[hdr] if lab == 'true']
-    w = g.path(entry, [hdr], avoid=sinks, labels=cfgm.noexc)
+    w = g.path(entry, [hdr], avoid=sinks, labels=cfgm.noexc, edge_ok=defer_ok)
     if w is not None:
         out.bad(fn, stmt, f'an entry of the case {loop.kind} can pass the {label} loop without set_val, '
                 f'set_later deferral or warning (silently not restored): {g.fmt_path(w)}',
@@ -388,21 +406,63 @@ def nodrop(repo, out):
 
 
 # =========================================================================== C19.deferred
+def _is_override_test(t):
+    return isinstance(t, ast.Call) and astx.callee_attr(t) == 'overrides_method' and \
+        astx.const_str(astx.arg(t, 0, 'method_name')) == 'load_case'
+
+
 def _overrides_dict(lc):
-    """(name of the {path: system} dict, the store statement, its guarding If) in load_case."""
+    """(dict name, node to report at, key expr, value expr, system tested by overrides_method) in load_case.
+
+    Accepts the store loop `if overrides_method('load_case', s, System): d[s.pathname] = s` and the dict
+    comprehension `d = {s.pathname: s for s in ... if overrides_method('load_case', s, System)}`.
+    """
     fn = lc.fn
-    stores = []
+    found = []
     for st in astx.walk_stmts(fn.node.body):
-        if isinstance(st, ast.Assign) and len(st.targets) == 1 and isinstance(st.targets[0], ast.Subscript) \
-                and isinstance(st.targets[0].value, ast.Name):
-            par = getattr(st, '_parent', None)
-            if isinstance(par, ast.If) and isinstance(par.test, ast.Call) and \
-                    astx.callee_attr(par.test) == 'overrides_method' and \
-                    astx.const_str(astx.arg(par.test, 0, 'method_name')) == 'load_case':
-                stores.append((st.targets[0].value.id, st, par))
-    if len(stores) != 1:
-        raise AnalysisError(f'{fn.ident}: expected one store of overriding subsystems, found {len(stores)}')
-    return stores[0]
+        if not (isinstance(st, ast.Assign) and len(st.targets) == 1):
+            continue
+        t = st.targets[0]
+        if isinstance(t, ast.Subscript) and isinstance(t.value, ast.Name):
+            tests = [a for a in astx.ancestors(st) if isinstance(a, ast.If) and astx.in_body(st, a, 'body')
+                     and _is_override_test(a.test)]
+            if tests:
+                found.append((t.value.id, st, t.slice, st.value, astx.arg(tests[0].test, 1, 'obj')))
+        elif isinstance(t, ast.Name) and isinstance(st.value, ast.DictComp) and len(st.value.generators) == 1:
+            gen = st.value.generators[0]
+            tests = [c for c in gen.ifs if _is_override_test(c)]
+            if tests and len(gen.ifs) == 1:
+                found.append((t.id, st, st.value.key, st.value.value, astx.arg(tests[0], 1, 'obj')))
+    if len(found) != 1:
+        raise AnalysisError(f'{fn.ident}: expected one store of overriding subsystems, found {len(found)}')
+    return found[0]
+
+
+def _prefix_verdict(p, t, var, k, where):
+    """Decide the test `t` of predicate p: is it `var.startswith(k + '.')`?  None = ok, else verdict tuple."""
+    if isinstance(t, ast.Call) and astx.callee_attr(t) == 'startswith' and len(t.args) == 1:
+        recv, a0 = astx.receiver(t), t.args[0]
+        if isinstance(recv, ast.Name) and recv.id == var and _is_prefix_of(a0, k):
+            return None
+        if isinstance(recv, ast.Name) and recv.id == var and isinstance(a0, ast.Name) and a0.id == k:
+            return ('bad', where, f"{p} tests startswith({k}) without the '.' separator: variables of "
+                    f"a sibling system whose name merely starts with an overriding system's name "
+                    f"(e.g. 'sub2.x' for override 'sub') are deferred and never restored", 'set-later-prefix')
+        if isinstance(recv, ast.Name) and recv.id == k and astx.names(a0) & {var}:
+            return ('bad', where, f'{p} tests whether the system path starts with the variable name '
+                    '(operands swapped): nothing below an overriding system is deferred correctly',
+                    'set-later-prefix')
+    return ('unsure', where, f'{p}: prefix test not recognised')
+
+
+def _keys_of(it, dname):
+    """Is `it` an iteration over the keys of dict `dname` (d, d.keys(), sorted(...), list(...))?"""
+    if isinstance(it, ast.Call) and astx.call_name(it) in ('sorted', 'list', 'tuple') and len(it.args) == 1 \
+            and not it.keywords:
+        it = it.args[0]
+    if isinstance(it, ast.Call) and astx.callee_attr(it) == 'keys' and not it.args:
+        it = astx.receiver(it)
+    return isinstance(it, ast.Name) and it.id == dname
 
 
 def _is_prefix_of(e, key):
@@ -422,10 +482,8 @@ def deferred(repo, out):
     """Deferred names are exactly those below a system whose overriding load_case(case) is then called."""
     lc = LC(repo)
     g, fn = lc.g, lc.fn
-    dname, store, guard = _overrides_dict(lc)
+    dname, store, key, val, tested = _overrides_dict(lc)
     # (a) the store: overrides[<s>.pathname] = <s>, <s> being the system tested by overrides_method
-    key, val = store.targets[0].slice, store.value
-    tested = astx.arg(guard.test, 1, 'obj')
     if isinstance(key, ast.Attribute) and key.attr == 'pathname' and astx.same(key.value, val) and \
             tested is not None and astx.same(tested, val):
         out.ok(fn, store, 'overriding systems are stored under their own pathname')
@@ -441,8 +499,8 @@ def deferred(repo, out):
     # (b) every deferral test calls a local predicate that is true only below an overriding system
     preds = set()
     for loop in lc.loops:
-        for n in lc.deferral_nodes(loop):
-            preds.add(n.ast._parent.test.func.id)
+        for _, _, pname in lc.deferral_tests(loop):
+            preds.add(pname)
     if not preds:
         out.ok(fn, fn.node, 'no deferral in the table loops')
     for p in sorted(preds):
@@ -453,11 +511,24 @@ def deferred(repo, out):
         var = d.args.args[0].arg
         rets = [s for s in astx.walk_stmts(d.body) if isinstance(s, ast.Return)]
         verdict = 'ok'
+        defers = False
         for r in rets:
             v = r.value
             if isinstance(v, ast.Constant) and v.value in (False, None):
                 continue
             if v is None:
+                continue
+            if isinstance(v, ast.Call) and astx.call_name(v) == 'any' and len(v.args) == 1 and not v.keywords \
+                    and isinstance(v.args[0], (ast.GeneratorExp, ast.ListComp)) and len(v.args[0].generators) == 1:
+                gen = v.args[0].generators[0]
+                if gen.ifs or not isinstance(gen.target, ast.Name) or not _keys_of(gen.iter, dname):
+                    verdict = ('unsure', r, f'{p}: any() does not range over the keys of {dname}')
+                    break
+                pv = _prefix_verdict(p, v.args[0].elt, var, gen.target.id, r)
+                if pv is not None:
+                    verdict = pv
+                    break
+                defers = True
                 continue
             if not (isinstance(v, ast.Constant) and v.value is True):
                 verdict = ('unsure', r, f'{p} returns a computed value')
@@ -469,33 +540,17 @@ def deferred(repo, out):
                 verdict = ('bad', r, f'{p} returns True outside a prefix test against the overriding systems: '
                            'names are deferred that no overriding load_case will restore', 'set-later-true')
                 break
-            it = loopst.iter
-            if isinstance(it, ast.Call) and astx.callee_attr(it) == 'keys' and not it.args:
-                it = astx.receiver(it)
-            if not (isinstance(it, ast.Name) and it.id == dname and isinstance(loopst.target, ast.Name)):
+            if not (_keys_of(loopst.iter, dname) and isinstance(loopst.target, ast.Name)):
                 verdict = ('unsure', loopst, f'{p} does not iterate the keys of {dname}')
                 break
-            k = loopst.target.id
-            t = test.test
-            if isinstance(t, ast.Call) and astx.callee_attr(t) == 'startswith' and len(t.args) == 1:
-                recv, a0 = astx.receiver(t), t.args[0]
-                if isinstance(recv, ast.Name) and recv.id == var and _is_prefix_of(a0, k):
-                    continue
-                if isinstance(recv, ast.Name) and recv.id == var and isinstance(a0, ast.Name) and a0.id == k:
-                    verdict = ('bad', test, f"{p} tests startswith({k}) without the '.' separator: variables of "
-                               f"a sibling system whose name merely starts with an overriding system's name "
-                               f"(e.g. 'sub2.x' for override 'sub') are deferred and never restored",
-                               'set-later-prefix')
-                    break
-                if isinstance(recv, ast.Name) and recv.id == k and astx.names(a0) & {var}:
-                    verdict = ('bad', test, f'{p} tests whether the system path starts with the variable name '
-                               '(operands swapped): nothing below an overriding system is deferred correctly',
-                               'set-later-prefix')
-                    break
-            verdict = ('unsure', test, f'{p}: prefix test not recognised')
-            break
+            pv = _prefix_verdict(p, test.test, var, loopst.target.id, test)
+            if pv is not None:
+                verdict = pv
+                break
+            defers = True
+            continue
         if verdict == 'ok':
-            if any(isinstance(r.value, ast.Constant) and r.value.value is True for r in rets):
+            if defers:
                 out.ok(fn, d, f"{p}(name) is True only when name starts with <pathname of an overriding system> + '.'")
             else:
                 out.ok(fn, d, f'{p}(name) never defers')
@@ -529,6 +584,11 @@ def deferred(repo, out):
         view = astx.callee_attr(it)
         it = astx.receiver(it)
     recv = astx.receiver(c)
+    if isinstance(recv, ast.Name):
+        tmp = [x.value for x in astx.walk_stmts(st.body) if isinstance(x, ast.Assign) and len(x.targets) == 1
+               and astx.path(x.targets[0]) == recv.id]
+        if len(tmp) == 1 and isinstance(tmp[0], ast.Subscript):
+            recv = tmp[0]
     tgt = st.target
     full = isinstance(it, ast.Name) and it.id == dname
     if view == 'keys':
@@ -616,26 +676,87 @@ class Site:
                 return v, d
         return e, at
 
-    def _fetch_of(self, e, stmt, at):
-        """Fetch for expression e = T[idx] / T[idx]['val'] or None."""
+    def _lexical_guard(self, stmt):
+        for a in astx.ancestors(stmt):
+            if a is self.loop.stmt:
+                break
+            if isinstance(a, ast.If):
+                p = self.lc.dict_polarity(a.test)
+                if p is not None:
+                    return p if astx.in_body(stmt, a, 'body') else (not p)
+        return None
+
+    def _path_guard(self, dnode, var, target):
+        """Mode in which definition `dnode` of `var` can still be live at `target`: True = dict mode only,
+        False = Case mode only, None = both (tests on the dict/Case flag are followed path-sensitively)."""
+        lc, g = self.lc, self.lc.g
+        others = {d for d in g.nodes if d is not dnode and d is not target and var in lc.rd.gen.get(d, {})}
+
+        def live(assume):
+            def ok(n, m, lab):
+                if n.kind == 'test' and isinstance(n.ast, ast.If) and lab in ('true', 'false'):
+                    p = lc.dict_polarity(n.ast.test)
+                    if p is not None:
+                        return (lab == 'true') == (p == assume)
+                return True
+            starts = [m for m, lab in g.succ[dnode] if lab != 'exc' and ok(dnode, m, lab) and m not in others]
+            return g.path(starts, [target], avoid=others, labels=cfgm.noexc, edge_ok=ok) is not None
+        in_dict, in_case = live(True), live(False)
+        if in_dict and not in_case:
+            return True
+        if in_case and not in_dict:
+            return False
+        return None
+
+    def _fetches(self, e, stmt, at, guard, depth=0):
+        """List of Fetch for a value expression (None if it is not made of plain table entries)."""
+        lc = self.lc
+        if depth > 4:
+            return None
+        if isinstance(e, ast.IfExp):
+            p = lc.dict_polarity(e.test)
+            if p is None or guard is not None:
+                return None
+            a = self._fetches(e.body, stmt, at, p, depth + 1)
+            b = self._fetches(e.orelse, stmt, at, not p, depth + 1)
+            return None if a is None or b is None else a + b
         form = 'plain'
         if isinstance(e, ast.Subscript) and astx.const_str(e.slice) == 'val':
             form, e = 'val', e.value
+            if isinstance(e, ast.Name):
+                # index-then-unwrap: v = T[k] ... v = v['val']
+                inner = self._name_fetches(e, at, None, depth + 1)
+                if inner is None or any(f.form != 'plain' for f in inner):
+                    return None
+                return [Fetch(f.kinds, f.idx, 'val', stmt, guard) for f in inner]
         if isinstance(e, ast.Subscript) and isinstance(e.slice, ast.Name):
-            tk = self.lc.table(e.value, at)
+            tk = lc.table(e.value, at)
             if tk and all(v == 'keys' for _, _, v in tk):
-                tk = {(k, m) for k, m, _ in tk}
-                guard = None
-                for a in astx.ancestors(stmt):
-                    if a is self.loop.stmt:
-                        break
-                    if isinstance(a, ast.If):
-                        p = self.lc.dict_polarity(a.test)
-                        if p is not None:
-                            guard = p if astx.in_body(stmt, a, 'body') else (not p)
-                            break
-                return Fetch(tk, e.slice.id, form, stmt, guard)
+                return [Fetch({(k, m) for k, m, _ in tk}, e.slice.id, form, stmt, guard)]
         return None
+
+    def _name_fetches(self, name, at, guard, depth=0):
+        """Fetches of every definition of local `name` reaching `at`; sets self.problem and returns None on failure."""
+        lc = self.lc
+        ds = lc.rd.defs(at, name.id)
+        if not ds:
+            return None
+        out = []
+        for d in ds:
+            fs = None
+            if d.kind == 'stmt' and isinstance(d.ast, ast.Assign) and len(d.ast.targets) == 1 and \
+                    astx.path(d.ast.targets[0]) == name.id:
+                gd = guard
+                if gd is None:
+                    gd = self._lexical_guard(d.ast)
+                if gd is None:
+                    gd = self._path_guard(d, name.id, at)
+                fs = self._fetches(d.ast.value, d.ast, d, gd, depth + 1)
+            if fs is None:
+                self._bad_def = d
+                return None
+            out += fs
+        return out
 
     def _analyse(self):
         lc, call = self.lc, self.call
@@ -649,31 +770,28 @@ class Site:
                 self.problem = ('unsure', 'scatter_dist_to_local arguments not recognised', None)
                 return
             v = v.args[0]
+        self._bad_def = None
         if isinstance(v, ast.Name):
-            ds = lc.rd.defs(at, v.id)
-            if not ds:
-                self.problem = ('unsure', f'no definition of {v.id} reaches set_val', None)
+            fs = self._name_fetches(v, at, None)
+            if fs is None:
+                d = self._bad_def
+                if d is not None and d.kind == 'iter' and v.id in lc.loop_vars(self.loop):
+                    self.problem = ('bad', f'the loop name {v.id} is passed as the value of set_val '
+                                    '(arguments swapped)', 'set-val-args')
+                elif d is not None:
+                    self.problem = ('unsure', f'value {v.id} is not a plain table entry at '
+                                    f'line {d.lineno}: {d.text()[:60]}', None)
+                else:
+                    self.problem = ('unsure', f'no definition of {v.id} reaches set_val', None)
                 return
-            for d in ds:
-                f = None
-                if d.kind == 'stmt' and isinstance(d.ast, ast.Assign) and len(d.ast.targets) == 1 and \
-                        astx.path(d.ast.targets[0]) == v.id:
-                    f = self._fetch_of(d.ast.value, d.ast, d)
-                if f is None:
-                    if d.kind == 'iter' and v.id in lc.loop_vars(self.loop):
-                        self.problem = ('bad', f'the loop name {v.id} is passed as the value of set_val '
-                                        '(arguments swapped)', 'set-val-args')
-                    else:
-                        self.problem = ('unsure', f'value {v.id} is not a plain table entry at '
-                                        f'line {d.lineno}: {d.text()[:60]}', None)
-                    return
-                self.fetches.append(f)
+            self.fetches = fs
         else:
-            f = self._fetch_of(v, astx.stmt_of(call), at)
-            if f is None:
+            st = astx.stmt_of(call)
+            fs = self._fetches(v, st, at, self._lexical_guard(st))
+            if fs is None:
                 self.problem = ('unsure', f'value {astx.src(v)} is not a plain table entry', None)
                 return
-            self.fetches.append(f)
+            self.fetches = fs
 
     def name_var(self):
         return self.name.id if isinstance(self.name, ast.Name) else None
@@ -745,6 +863,9 @@ def taint(repo, out):
                         want = 'plain'
                     elif modes == {'dict'}:
                         want = 'val'
+                    elif modes == {'case', 'dict'}:
+                        # executed in both modes with one form: wrong in one of them whatever the form
+                        want = 'val' if f.form == 'plain' else 'plain'
                     else:
                         verdict = ('unsure', f'{astx.src(f.stmt)} is not under a dict/Case mode test', None)
                         break
@@ -1105,7 +1226,8 @@ def _endpoint_of_name(lc, loop, site, kind, seen=None):
                 # get_prom_iotype: promoted output first, else promoted input; an absolute name is itself
                 frames.add({'prom_out': 'out', 'abs_out': 'out', 'autoivc': 'in', 'prom': 'in', 'abs': 'same'}[kind])
             elif astx.const_str(io) == 'output':
-                frames.add('out')
+                # a promoted input name is no promoted output: absnames(name, 'output') raises KeyError
+                frames.add('err' if kind in ('autoivc', 'prom', 'abs') else 'out')
             elif astx.const_str(io) == 'input':
                 frames.add('same' if kind == 'abs' else 'in')
             else:
@@ -1164,6 +1286,11 @@ def endpoint(repo, out):
                                'and src_indices (wrong value when an input declares other units than its '
                                'auto_ivc source, shape error with src_indices)',
                                f'outputs-{kind}-through-input-endpoint')
+                    break
+                if frame == 'err':
+                    verdict = ('bad', info, f'for {_KIND_TEXT[kind]} `{astx.src(info.iter)}` asks the resolver for '
+                               'promoted OUTPUT names, which such a key is not: KeyError, the recorded value of '
+                               'the auto_ivc output is never restored', f'outputs-{kind}-unresolvable')
                     break
                 verdict = ('unsure', st, f'end point frame {frame} not expected in the outputs loop')
                 break
@@ -1386,6 +1513,75 @@ _IN_STORE = ("                    if model.comm.size > 1 and resolver.flags(abs_
              "                        model.set_val(abs_name, val)\n")
 
 
+# ---- refactored (behaviour-preserving) shapes of the two loops and of the override bookkeeping
+_IN_EARLY = _IN_HDR_FIXED + '''
+                if set_later(abs_name):
+                    continue
+
+                if not resolver.is_abs(abs_name, 'input'):
+                    issue_warning(f"{model.msginfo}: Input variable, '{abs_name}', recorded "
+                                  "in the case is not found in the model.")
+                    continue
+
+                recorded = inputs[abs_name]['val'] if case_is_dict else case.inputs[abs_name]
+
+                if model.comm.size > 1 and resolver.flags(abs_name, 'input') & DISTRIBUTED:
+                    sizes = model._var_sizes['input'][:, abs2idx[abs_name]]
+                    local_val = scatter_dist_to_local(recorded, model.comm, sizes)
+                    model.set_val(abs_name, local_val)
+                else:
+                    model.set_val(abs_name, recorded)
+'''
+_OUT_EARLY = '''        if outputs:
+            for name in outputs:
+                if set_later(name):
+                    continue
+
+                if not resolver.is_prom(name):
+                    issue_warning(f"{model.msginfo}: Output variable, '{name}', recorded "
+                                  "in the case is not found in the model.")
+                    continue
+
+                val = outputs[name]
+                if case_is_dict:
+                    val = val['val']
+
+                if not resolver.is_prom(name, 'output'):
+                    abs_names = (resolver.source(name),)
+                else:
+                    abs_names = resolver.absnames(name, 'output')
+
+                for abs_name in abs_names:
+                    if not set_later(abs_name):
+                        if model.comm.size > 1 and resolver.flags(abs_name) & DISTRIBUTED:
+                            sizes = model._var_sizes['output'][:, abs2idx[abs_name]]
+                            model.set_val(abs_name, scatter_dist_to_local(val, model.comm, sizes))
+                        else:
+                            model.set_val(abs_name, val)
+'''
+_OVR_LOOP = '''        system_overrides = {}
+        for subsys in model.system_iter(include_self=False, recurse=True):
+            if overrides_method('load_case', subsys, System):
+                system_overrides[subsys.pathname] = subsys
+'''
+_OVR_COMP = '''        system_overrides = {
+            subsys.pathname: subsys
+            for subsys in model.system_iter(include_self=False, recurse=True)
+            if overrides_method('load_case', subsys, System)
+        }
+'''
+_LATER_LOOP = '''            for pathname in system_overrides:
+                if var_name.startswith(pathname + '.'):
+                    return True
+            return False
+'''
+_LATER_ANY = "            return any(var_name.startswith(pathname + '.') for pathname in system_overrides)\n"
+_FINAL_TEMP = '''        for sys_name in sorted(system_overrides):
+            subsys = system_overrides[sys_name]
+            subsys.load_case(case)
+'''
+
+
 def _shape_items():
     """Self-test items that quote whole blocks, for the current and for the repaired shape."""
     items = []
@@ -1518,6 +1714,40 @@ selftest(
     Twin('twin-values-reordered', CASE,
          "                    self._values[key] = val\n                    super().__setitem__(abs2prom[key], val)\n",
          "                    super().__setitem__(abs2prom[key], val)\n                    self._values[key] = val\n"),
+    # ---- refactored shapes: accepted (twins) and still guarded (mutants of the refactored text)
+    Twin('twin-inputs-early-continue-ifexp-temp', PRB, _IN_BLOCK, _IN_EARLY),
+    Twin('twin-outputs-early-continue-unwrap-positive-defer', PRB, _OUT_BLOCK, _OUT_EARLY),
+    Twin('twin-overrides-dictcomp', PRB, _OVR_LOOP, _OVR_COMP),
+    Twin('twin-set-later-any', PRB, _LATER_LOOP, _LATER_ANY),
+    Twin('twin-final-temp-receiver', PRB, _FINAL, _FINAL_TEMP),
+    Twin('twin-dict-default-then-override', PRB,
+         "                inputs = {meta['prom_name']: meta for meta in case['inputs'].values()}\n            else:\n                inputs = None\n",
+         "                inputs = {meta['prom_name']: meta for meta in case['inputs'].values()}\n"),
+    Mutant('refactored-any-without-dot', PRB, _LATER_LOOP, _LATER_ANY.replace("pathname + '.'", 'pathname'), 'C19.deferred'),
+    Mutant('refactored-any-swapped', PRB, _LATER_LOOP,
+           "            return any(pathname.startswith(var_name + '.') for pathname in system_overrides)\n", 'C19.deferred'),
+    Mutant('refactored-dictcomp-key-by-name', PRB, _OVR_LOOP, _OVR_COMP.replace('subsys.pathname: subsys', 'subsys.name: subsys'),
+           'C19.deferred'),
+    Mutant('refactored-final-temp-wrong-case', PRB, _FINAL, _FINAL_TEMP.replace('load_case(case)', 'load_case(inputs)'),
+           'C19.deferred'),
+    Mutant('refactored-positive-defer-inverted', PRB, _OUT_BLOCK, _OUT_EARLY.replace('if not set_later(abs_name):', 'if set_later(abs_name):'),
+           'C19.nodrop'),
+    Mutant('refactored-early-continue-no-warning-gate', PRB, _OUT_BLOCK,
+           _OUT_EARLY.replace("                if not resolver.is_prom(name):\n", "                if not resolver.is_prom(name, 'output'):\n", 1),
+           'C19.keyspace'),
+    Mutant('refactored-ifexp-forms-swapped', PRB, _IN_BLOCK,
+           _IN_EARLY.replace("inputs[abs_name]['val'] if case_is_dict else case.inputs[abs_name]",
+                             "inputs[abs_name] if case_is_dict else case.inputs[abs_name]['val']"), 'C19.taint'),
+    Mutant('refactored-ifexp-wrong-table', PRB, _IN_BLOCK,
+           _IN_EARLY.replace("else case.inputs[abs_name]", "else case.outputs[abs_name]"), 'C19.taint'),
+    Mutant('refactored-unwrap-in-case-mode', PRB, _OUT_BLOCK,
+           _OUT_EARLY.replace("                if case_is_dict:\n                    val = val['val']", "                if not case_is_dict:\n                    val = val['val']"),
+           'C19.taint'),
+    Mutant('refactored-unwrap-dropped', PRB, _OUT_BLOCK,
+           _OUT_EARLY.replace("                if case_is_dict:\n                    val = val['val']\n", ""), 'C19.taint'),
+    Mutant('refactored-branches-swapped-wrongly', PRB, _OUT_BLOCK,
+           _OUT_EARLY.replace("if not resolver.is_prom(name, 'output'):", "if resolver.is_prom(name, 'output'):"),
+           'C19.endpoint'),
     # ---- twins
     Twin('twin-sorted-dict', PRB, 'for sys_name in sorted(system_overrides.keys()):', 'for sys_name in sorted(system_overrides):'),
     Twin('twin-items', PRB, _FINAL, '        for sys_name, sub in sorted(system_overrides.items()):\n            sub.load_case(case)\n'),
